@@ -6,7 +6,6 @@ import (
 	"math/big"
 
 	"github.com/aclements/go-moremath/stats"
-	"gonum.org/v1/gonum/stat/distuv"
 
 	"verif/mc/core"
 	"verif/mc/enum"
@@ -55,10 +54,8 @@ func c04TCDF(t, dof float64) float64 {
 	var v float64
 	if isInt(dof) && dof >= 1 && dof <= 2000 {
 		v = ref.ToF(ref.TCDFInt(t, int(dof)))
-	} else if t*t <= dof/4 {
-		v = ref.TCDFSeries(t, dof)
 	} else {
-		v = distuv.StudentsT{Mu: 0, Sigma: 1, Nu: dof}.CDF(t)
+		v = c05TRef(dof, t) // series near 0, tail quadrature for dof >= 20, gonum below
 	}
 	if len(c04RefMemo) > 200000 {
 		c04RefMemo = map[[2]float64]float64{}
